@@ -186,7 +186,263 @@ def check(ctx: Ctx) -> list[RuleResult]:
     else:
         r4.fail(f"{hm.short}:conditional-store", hm.loc(), f"the store is guarded by {guards}")
     out.append(r4)
+
+    # ---- R5 ---------------------------------------------------------------------------
+    r5 = RuleResult("R5", "among several candidate messages the newest is chosen", "every definition of the message handed to _msg_value_msg is a keyed lookup (one candidate) or max() over all candidates; Message orders by dtm", min_instances=3)
+    mvc = repo.func(f"{EB}._MessageDB._msg_value_code")
+    calls = [n for n in own_nodes(mvc.node) if isinstance(n, ast.Call) and norm(n.func) == "self._msg_value_msg" and n.args]
+    if not calls or not isinstance(calls[0].args[0], ast.Name):
+        raise AnalysisError("_msg_value_code no longer hands a local message to _msg_value_msg")
+    var = calls[0].args[0].id
+    defs = [n for n in own_nodes(mvc.node) if isinstance(n, ast.Assign) and any(isinstance(t, ast.Name) and t.id == var for t in n.targets)]
+    for d in defs:
+        r5.instances += 1
+        r5.nontrivial += 1
+        why = _selection_kind(ctx, mvc, d.value)
+        if why:
+            r5.ok({"definition": norm(d)[:70], "kind": why})
+        else:
+            r5.fail(f"{mvc.short}:{var} = {norm(d.value)[:60]}", mvc.loc(d), f"`{norm(d)[:90]}` picks one message out of several without ordering them by time: an older message's value can be reported although a newer one was received")
+    lt = repo.funcs.get(f"{M}.MessageBase.__lt__") or repo.funcs.get(f"{M}.Message.__lt__")
+    r5.instances += 1
+    r5.nontrivial += 1
+    if lt is not None and any(isinstance(n, ast.Compare) and norm(n) == "self.dtm < other.dtm" for n in own_nodes(lt.node)):
+        r5.ok({"Message.__lt__": "self.dtm < other.dtm"})
+    else:
+        r5.fail("Message.__lt__", repo.mod(M).rel, "Message ordering is no longer by timestamp (self.dtm < other.dtm): max() would not select the newest message")
+    out.append(r5)
+
+    # ---- R6 ---------------------------------------------------------------------------
+    r6 = RuleResult("R6", "payload-defined lifetimes take precedence", "in Message._expired every other update of _fraction_expired lies on the false edge of the sync-cycle (1F09, not RQ) test", min_instances=2)
+    cfge = ctx.plain_cfg(ex)
+    sync_tests = [t for t in cfge.nodes if t.kind == "test" and "Code._1F09" in norm(t.ast) and "self.verb != RQ" in norm(t.ast)]
+    if len(sync_tests) != 1:
+        raise AnalysisError("Message._expired: the sync-cycle (1F09) test was not found")
+    st = sync_tests[0]
+    writes = [n for n in cfge.nodes if n.kind == "stmt" and isinstance(n.ast, ast.Assign) and norm(n.ast.targets[0]) == "self._fraction_expired"]
+    pay = [w for w in writes if "remaining_seconds" in norm(w.ast.value)]  # type: ignore[union-attr]
+    if not pay:
+        raise AnalysisError("Message._expired: the payload-derived lifetime (remaining_seconds) is no longer used")
+    for w in writes:
+        r6.instances += 1
+        r6.nontrivial += 1
+        if w in pay:
+            ok = cfge.edge_dominates(st, "true", w)
+            if ok:
+                r6.ok({"write": norm(w.ast)[:70], "on": "true edge of the sync-cycle test"})
+            else:
+                r6.fail(f"{ex.short}:payload-lifetime-unguarded", ex.loc(w.ast), "the payload-derived lifetime is applied outside the sync-cycle test")
+        elif cfge.edge_dominates(st, "false", w):
+            r6.ok({"write": norm(w.ast)[:70], "on": "false edge of the sync-cycle test"})
+        else:
+            r6.fail(f"{ex.short}:{norm(w.ast)[:60]}:before-sync-test", ex.loc(w.ast), f"`{norm(w.ast)[:70]}` can be reached by a sync-cycle (1F09) message without passing the payload-lifetime branch: its countdown is then ignored (an RP/W 1F09 has a table lifetime of zero, which Packet stores as 'cannot expire')")
+    out.append(r6)
+
+    # ---- R7 ---------------------------------------------------------------------------
+    r7 = RuleResult("R7", "properties report payload data only through the expiry-aware accessor", "no entity property reads <Message>.payload (or an attribute caching a payload) without an _expired test; _msg_value* is the accessor", min_instances=40)
+    cached: dict[str, list] = {}  # attribute name -> writer functions, for attributes assigned from <msg>.payload
+    never_truthy: dict[str, bool] = {}  # attribute name -> every writer in the repository assigns a falsy constant
+    for g in repo.funcs.values():
+        for n in own_nodes(g.node):
+            if isinstance(n, (ast.Assign, ast.AnnAssign)) and n.value is not None:
+                for t in n.targets if isinstance(n, ast.Assign) else [n.target]:
+                    if isinstance(t, ast.Attribute):
+                        falsy = isinstance(n.value, ast.Constant) and not n.value.value
+                        never_truthy[t.attr] = never_truthy.get(t.attr, True) and falsy
+            elif isinstance(n, ast.AugAssign) and isinstance(n.target, ast.Attribute):
+                never_truthy[n.target.attr] = False
+        if not g.module.name.startswith("ramses_rf."):
+            continue
+        for n in own_nodes(g.node):
+            if isinstance(n, ast.Assign) and isinstance(n.value, ast.Attribute) and n.value.attr == "payload":
+                at = ctx.cg.atoms(g, n.value.value) or ()
+                if any(a.endswith("message.Message") for a in at):
+                    for t in n.targets:
+                        if isinstance(t, ast.Attribute) and isinstance(t.value, ast.Name) and t.value.id == "self":
+                            cached.setdefault(t.attr, []).append(g)
+    dead_attrs = {a for a, v in never_truthy.items() if v}
+
+    def in_dead_branch(n: ast.AST) -> str | None:
+        """The read sits in the body of `if <x>.<attr>:` where no writer in the repository ever makes <attr> truthy."""
+        child, p = n, getattr(n, "parent", None)
+        while p is not None and not isinstance(p, (ast.FunctionDef, ast.AsyncFunctionDef)):
+            if isinstance(p, ast.If) and child in p.body and isinstance(p.test, ast.Attribute) and p.test.attr in dead_attrs:
+                return p.test.attr
+            child, p = p, getattr(p, "parent", None)
+        return None
+
+    def related(c1, c2) -> bool:
+        return c1 is not None and c2 is not None and (c1 in c2.mro or c2 in c1.mro)
+
+    def dead_filter(g, n: ast.AST) -> str | None:
+        """Named exception, premise re-checked: a comprehension filter `self.<D>.get(<k>)` that can never hold because every key
+        stored into <D> is an f-string with a literal '|' while <k> iterates the keys of a dict filled with `_to_msg_id(...)` ids."""
+        p = getattr(n, "parent", None)
+        while p is not None and not isinstance(p, (ast.DictComp, ast.ListComp, ast.SetComp, ast.GeneratorExp)):
+            if isinstance(p, (ast.FunctionDef, ast.AsyncFunctionDef)):
+                return None
+            p = getattr(p, "parent", None)
+        if p is None:
+            return None
+        for gen in p.generators:
+            for cond in gen.ifs:
+                for c in ast.walk(cond):
+                    if isinstance(c, ast.Call) and isinstance(c.func, ast.Attribute) and c.func.attr == "get" and isinstance(c.func.value, ast.Attribute) and len(c.args) == 1 and isinstance(c.args[0], ast.Name):
+                        dname = c.func.value.attr
+                        # reader key: first element of the loop target over <self.X>.items()
+                        if not (isinstance(gen.target, ast.Tuple) and isinstance(gen.target.elts[0], ast.Name) and gen.target.elts[0].id == c.args[0].id):
+                            continue
+                        if not (isinstance(gen.iter, ast.Call) and isinstance(gen.iter.func, ast.Attribute) and gen.iter.func.attr == "items" and isinstance(gen.iter.func.value, ast.Attribute)):
+                            continue
+                        src_attr = gen.iter.func.value.attr
+                        # every store into <dname>: key is an f-string containing '|'
+                        key_exprs = []
+                        for h in repo.funcs.values():
+                            if not h.module.name.startswith("ramses_rf."):
+                                continue
+                            aliases = {a.targets[0].id for a in own_nodes(h.node) if isinstance(a, ast.Assign) and len(a.targets) == 1 and isinstance(a.targets[0], ast.Name) and isinstance(a.value, ast.Attribute) and a.value.attr == dname}
+                            for x in own_nodes(h.node):
+                                if isinstance(x, ast.Subscript) and isinstance(x.ctx, ast.Store) and isinstance(x.value, ast.Attribute) and x.value.attr == dname:
+                                    key_exprs.append((h, x.slice))
+                                if aliases and isinstance(x, ast.Call) and any(isinstance(a, ast.Name) and a.id in aliases for a in x.args):
+                                    # the dict is handed to a helper together with its key: (f)(supported_cmds, idx)
+                                    for a in x.args:
+                                        if isinstance(a, ast.Name) and a.id not in aliases:
+                                            key_exprs += [(h, d.value) for d in own_nodes(h.node) if isinstance(d, (ast.Assign, ast.AnnAssign)) and d.value is not None and any(isinstance(t, ast.Name) and t.id == a.id for t in (d.targets if isinstance(d, ast.Assign) else [d.target]))]
+                        ctx_keys = [k for _h, k in key_exprs if isinstance(k, ast.JoinedStr)]
+                        piped = [k for k in ctx_keys if any(isinstance(v, ast.Constant) and "|" in str(v.value) for v in k.values)]
+                        src_ok = False
+                        for h in repo.funcs.values():
+                            for x in own_nodes(h.node):
+                                if isinstance(x, ast.Assign) and isinstance(x.targets[0], ast.Subscript) and isinstance(x.targets[0].value, ast.Attribute) and x.targets[0].value.attr == src_attr:
+                                    k = x.targets[0].slice
+                                    d = None
+                                    if isinstance(k, ast.Name):
+                                        ds = [a.value for a in own_nodes(h.node) if isinstance(a, ast.Assign) and len(a.targets) == 1 and isinstance(a.targets[0], ast.Name) and a.targets[0].id == k.id]
+                                        d = ds[0] if len(ds) == 1 else None
+                                    src_ok = d is not None and isinstance(d, ast.Call) and norm(d.func) == "_to_msg_id"
+                        if piped and len(piped) == len(ctx_keys) and src_ok:
+                            return f"the filter `{norm(c)}` never holds: every key stored into {dname} is '<code>|<ctx>' ({len(piped)} store(s)) while {c.args[0].id} is a bare message id"
+        return None
+
+    n_props = 0
+    exempt: dict[str, str] = {}
+    for g in sorted(repo.funcs.values(), key=lambda x: x.qualname):
+        if not (g.module.name.startswith("ramses_rf.") and g.is_property and g.cls is not None and g.parent is None and not any(d.endswith(".setter") for d in g.decorators)):
+            continue
+        if not any(c.name == "_MessageDB" for c in g.cls.mro):
+            continue
+        n_props += 1
+        r7.instances += 1
+        sites = []
+        for n in own_nodes(g.node):
+            what = None
+            if isinstance(n, ast.Attribute) and n.attr == "payload" and isinstance(n.ctx, ast.Load):
+                at = ctx.cg.atoms(g, n.value) or ("Any",)
+                if any(a.endswith("message.Message") or a == "Any" for a in at) and not _expiry_guarded(n):
+                    what = f"{norm(n.value)[:40]}.payload"
+            elif isinstance(n, ast.Attribute) and isinstance(n.value, ast.Name) and n.value.id == "self" and n.attr in cached and isinstance(n.ctx, ast.Load):
+                ws = [w for w in cached[n.attr] if related(w.cls, g.cls)]
+                if ws:
+                    what = f"self.{n.attr} (a payload cached by {', '.join(sorted({w.short for w in ws}))})"
+            if what is None:
+                continue
+            dead = in_dead_branch(n)
+            if dead:
+                exempt[f"{g.short}:{what}"] = f"under `if ...{dead}:` and no writer in the repository ever makes .{dead} truthy"
+                continue
+            why = dead_filter(g, n)
+            if why:
+                exempt[f"{g.short}:{what}"] = why
+                continue
+            sites.append((n, what))
+        if not sites:
+            r7.ok({"property": g.short})
+            continue
+        r7.nontrivial += 1
+        n0, what = sites[0]
+        r7.fail(f"{g.qualname}:direct-payload-read", g.loc(n0), f"{g.short} reports data from {what} without consulting the message's _expired: the value never ages out (it is not read through _msg_value*)", [f"{len(sites)} read(s): " + "; ".join(sorted({w for _n, w in sites}))[:200]])
+    r7.info["sites_exempt_with_reason"] = exempt
+    r7.info["entity_properties_scanned"] = n_props
+    r7.info["payload_caching_attributes"] = {k: sorted({w.short for w in v}) for k, v in cached.items()}
+    out.append(r7)
     return out
+
+
+def _expiry_guarded(n: ast.AST) -> bool:
+    """The read sits under a test that mentions `_expired` (comprehension filter, if/elif, conditional expression, and/or)."""
+    child: ast.AST = n
+    p = getattr(n, "parent", None)
+    while p is not None and not isinstance(p, (ast.FunctionDef, ast.AsyncFunctionDef)):
+        tests: list[ast.AST] = []
+        if isinstance(p, (ast.If, ast.IfExp, ast.While)):
+            tests.append(p.test)
+        if isinstance(p, ast.BoolOp):
+            tests.extend(p.values)
+        if isinstance(p, (ast.ListComp, ast.SetComp, ast.DictComp, ast.GeneratorExp)):
+            for gen in p.generators:
+                tests.extend(gen.ifs)
+                for sub in ast.walk(gen.iter):  # for x in [c for c in ... if not ...[c]._expired]
+                    if isinstance(sub, ast.comprehension):
+                        tests.extend(sub.ifs)
+        # an earlier sibling `if ... ._expired ...: return/raise/continue`
+        for fld in ("body", "orelse", "finalbody"):
+            blk = getattr(p, fld, None)
+            if isinstance(blk, list) and child in blk:
+                for st in blk[: blk.index(child)]:
+                    if isinstance(st, ast.If) and st.body and isinstance(st.body[-1], (ast.Return, ast.Raise, ast.Continue)):
+                        tests.append(st.test)
+        if any(isinstance(x, ast.Attribute) and x.attr == "_expired" for t in tests for x in ast.walk(t)):
+            return True
+        child = p
+        p = getattr(p, "parent", None)
+    if isinstance(p, (ast.FunctionDef, ast.AsyncFunctionDef)) and child in p.body:
+        for st in p.body[: p.body.index(child)]:
+            if isinstance(st, ast.If) and st.body and isinstance(st.body[-1], (ast.Return, ast.Raise)) and any(isinstance(x, ast.Attribute) and x.attr == "_expired" for x in ast.walk(st.test)):
+                return True
+    return False
+
+
+def _selection_kind(ctx: Ctx, f, v: ast.expr, depth: int = 0) -> str | None:
+    """How a message is chosen: None (absent), keyed lookup, or max() over the candidates. Anything else -> None (undecided/bad)."""
+    if isinstance(v, ast.Constant) and v.value is None:
+        return "None"
+    if isinstance(v, ast.IfExp):
+        a, b = _selection_kind(ctx, f, v.body, depth), _selection_kind(ctx, f, v.orelse, depth)
+        return f"{a} | {b}" if a and b else None
+    if isinstance(v, ast.Call) and isinstance(v.func, ast.Attribute) and v.func.attr == "get" and len(v.args) >= 1 and not isinstance(v.args[0], (ast.Tuple, ast.List)):
+        return "keyed lookup (.get)"
+    if isinstance(v, ast.Subscript) and not isinstance(v.slice, ast.Slice):
+        # sorted(xs)[-1] is the newest; xs[0]/xs[-1] of an unsorted collection is not a selection by time
+        if isinstance(v.value, ast.Call) and norm(v.value.func) == "sorted":
+            idx = v.slice
+            rev = any(k.arg == "reverse" and isinstance(k.value, ast.Constant) and k.value.value is True for k in v.value.keywords)
+            last = isinstance(idx, ast.UnaryOp) and isinstance(idx.op, ast.USub) and isinstance(idx.operand, ast.Constant) and idx.operand.value == 1
+            first = isinstance(idx, ast.Constant) and idx.value == 0
+            if (last and not rev) or (first and rev):
+                return "sorted()[newest]"
+            return None
+        at = ctx.cg.atoms(f, v.value) or ()
+        if any(a in ("I:builtins.dict", "I:typing.Mapping", "I:collections.OrderedDict") for a in at):
+            return "keyed lookup ([])"
+        return None
+    if isinstance(v, ast.Call) and norm(v.func) == "max" and len(v.args) == 1 and not any(k.arg == "key" for k in v.keywords):
+        return "max() over the candidates"
+    if isinstance(v, ast.Call) and depth < 2:
+        site = ctx.cg.site_of.get(id(v))
+        if site is not None and site.callees and not site.external:
+            kinds = []
+            for c in site.callees:
+                rets = [r for r in own_nodes(c.node) if isinstance(r, ast.Return) and r.value is not None]
+                if not rets:
+                    return None
+                for r in rets:
+                    k = _selection_kind(ctx, c, r.value, depth + 1)
+                    if not k:
+                        return None
+                    kinds.append(k)
+            return " | ".join(sorted(set(kinds)))
+    return None
 
 
 def _keys(t: ast.Subscript) -> list[str]:
